@@ -57,8 +57,13 @@ CFGS = {
     "cpp17pmr": ("cpp", {"std": "c++17-pmr"}),
     "cpp20": ("cpp", {"std": "c++20"}),
     "py": ("py", {}),
+    # option sets that switch code paths of the codecs (fast paths, assertions, capacity macros): used for the structure / boundary sets only
+    "c_opt": ("c", {"target_endianness": "little", "enable_serialization_asserts": True, "enable_override_variable_array_capacity": True}),
+    "c_big": ("c", {"target_endianness": "big"}),
+    "cpp_opt": ("cpp", {"std": "c++17", "target_endianness": "little", "enable_serialization_asserts": True}),
 }
-CXX_STD = {"cpp14": "c++14", "cpp17": "c++17", "cpp17pmr": "c++17", "cpp20": "c++20"}
+CXX_STD = {"cpp14": "c++14", "cpp17": "c++17", "cpp17pmr": "c++17", "cpp20": "c++20", "cpp_opt": "c++17"}
+OPTION_CFGS = ["c_opt", "c_big", "cpp_opt"]
 
 # fallback copy of verification/cmake/compiler_flag_sets/common.cmake (used only when the file cannot be parsed)
 C_FLAGS_FALLBACK = ["-pedantic", "-Wall", "-Wextra", "-Werror", "-Wfloat-equal", "-Wconversion", "-Wunused-parameter", "-Wunused-variable",
@@ -128,6 +133,12 @@ def tool_matrix(full):
         # quick: g++ for every standard, clang++ in addition for the oldest standard and for the pmr flavour
         m["cpp17"] = m["cpp17"][:1]
         m["cpp20"] = m["cpp20"][:1]
+        m["cpp_opt"] = m["cpp_opt"][:1]
+    # with enable_serialization_asserts the user has to supply NUNAVUT_ASSERT (the support header says so with an #error): the documented way
+    m["c_big"] = [t for t in m["c"] if t[0] in ("gcc-c11",)]
+    m["c_opt"] = [(tid, argv + ["-DNUNAVUT_ASSERT=assert", "-include", "cassert" if "++" in argv[0] else "assert.h"])
+                  for tid, argv in m["c"] if tid in ("gcc-c11", "clang-c11", "g++-c++14-externC")]
+    m["cpp_opt"] = [(tid, argv + ["-DNUNAVUT_ASSERT=assert", "-include", "cassert"]) for tid, argv in m["cpp_opt"]]
     m["py"] = [("python-import", None)]
     return m
 
@@ -198,6 +209,27 @@ def shapes_set():
     return {"id": "x-shapes", "roots": ["sroot"], "files": f, "meta": {"src": "names", "pos": "type", "cls": "shapes", "kind": "struct", "word": "*", "key": "shapes|extreme structures"}}
 
 
+def boundary_set():
+    """array capacities at the edges of the length-prefix widths and primitives of every storage class, at byte-aligned and unaligned offsets:
+    where option-dependent fast paths (whole-storage stores, bulk copies, capacity macros) change shape"""
+    f = {}
+    elems = ["bool", "uint8", "uint16", "uint24", "int40", "float32", "broot_b.E.1.0"]
+    f["broot_b/E.1.0.dsdl"] = "uint8 x\n@sealed\n"
+    n = 0
+    for cap in (255, 256, 65535, 65536):
+        for e in elems:
+            if cap > 256 and e not in ("bool", "uint8", "uint16"):
+                continue
+            for pre in ("", "uint3 pre\n"):
+                n += 1
+                f["broot_b/V%d.1.0.dsdl" % n] = "%s%s[<=%d] v\n%s[%d] f\nuint8 tail\n@sealed\n" % (pre, e, cap, e, min(cap, 300))
+    f["broot_b/Ints.1.0.dsdl"] = "".join("%s a%d\nuint3 p%d\n%s u%d\nvoid5\n" % (t, i, i, t, i) for i, t in enumerate(
+        ["uint8", "uint16", "uint24", "uint32", "uint40", "uint64", "int8", "int16", "int24", "int32", "int40", "int64", "float16", "float32", "float64",
+         "truncated uint16", "truncated uint24", "truncated float32"])) + "@sealed\n"
+    return {"id": "x-boundaries", "roots": ["broot_b"], "files": f, "meta": {"src": "names", "pos": "type", "cls": "boundaries", "kind": "struct", "word": "*",
+                                                                          "key": "boundaries|capacities and widths"}}
+
+
 def bulk_sets(ctx):
     """[(set, configurations)]: all keywords of C11 + C++20 (for c / cpp) resp. of Python (for py) as field names, as constant names and as
     type names of one namespace; words the DSDL front end itself refuses are left out (each word is asked separately)."""
@@ -257,6 +289,18 @@ def bulk_sets(ctx):
                 elif pos == "const":
                     for n, ch in enumerate(chunks):
                         files["%s/Bulk%d.1.0.dsdl" % (root, n)] = "".join("uint8 %s = %d\n" % (w, i % 200) for i, w in enumerate(ch)) + "@sealed\n"
+                elif cfgs != ["py"]:
+                    # one header per word, each compiled alone by every tool: several small sets (the sets are the unit of parallel work)
+                    for n in range(0, len(lws), 12):
+                        ch = lws[n:n + 12]
+                        r2 = "%sp%d" % (root, n // 12)
+                        f2 = {"%s/%s.1.0.dsdl" % (r2, w): "uint8 a\n@sealed\n" for w in ch}
+                        f2["%s/User.1.0.dsdl" % r2] = "".join("%s.%s.1.0 f%d\n" % (r2, w, i) for i, w in enumerate(ch)) + "@sealed\n"
+                        key = "bulk|%s|%s|layer %d|part %d|%d words" % (pos, cls, ln, n // 12, len(ch))
+                        out.append(({"id": "b-" + sha(key)[:10], "roots": [r2], "files": f2,
+                                     "meta": {"src": "names", "pos": pos, "cls": "bulk:" + cls, "kind": "struct", "word": "*", "key": key, "words": ch}},
+                                    [c for c in cfgs if c in ("c", "cpp14", "cpp20")]))
+                    continue
                 else:
                     for w in lws:
                         files["%s/%s.1.0.dsdl" % (root, w)] = "uint8 a\n@sealed\n"
@@ -1100,7 +1144,7 @@ def diag_class(diag):
 
 
 def target_of(cfg, tool):
-    if cfg == "c":
+    if CFGS[cfg][0] == "c":
         return ("c-in-c++" if "externC" in tool else "c") + ("-macro-use" if tool.endswith("-use") else "")
     return "cpp" if cfg.startswith("cpp") else cfg
 
@@ -1579,8 +1623,14 @@ def run(ctx):
     ctx.cov["bulk_keyword_sets"] = [{"key": bs["meta"]["key"], "configurations": cfgs} for bs, cfgs in bsets]
     wide = wide_set()
     shp = shapes_set()
-    wr, sr = run_jobs(ctx, [mkjob(ctx, wide, [(cfg, m) for cfg in ("c", "cpp17", "py") for m in omodes], tool_matrix(full=False)),
-                            mkjob(ctx, shp, [(cfg, m) for cfg in ALL_CFGS for m in omodes], tools)])
+    bnd = boundary_set()
+    wr, sr, br = run_jobs(ctx, [mkjob(ctx, wide, [(cfg, m) for cfg in ("c", "cpp17", "py") for m in omodes], tool_matrix(full=False)),
+                                mkjob(ctx, shp, [(cfg, m) for cfg in ALL_CFGS + OPTION_CFGS for m in omodes], tools),
+                                mkjob(ctx, bnd, [(cfg, "ser") for cfg in ["c", "cpp14", "py"] + OPTION_CFGS], tool_matrix(full=False))])
+    if not br["accepted"]:
+        raise MachineryFailure("the front end rejected the set of boundary shapes: %s" % br["why"])
+    camp.add(bnd, br)
+    ctx.distinct(bnd["meta"]["key"])
     if wr["accepted"]:
         camp.add(wide, wr)
         ctx.distinct(wide["meta"]["key"])
